@@ -65,6 +65,37 @@ def build_planet(spec):
 
 
 ARRAYS = ('radius', 'density', 'gravity', 'bulk', 'shear')
+GUARD = 8                     # elements of guard zone on either side of every caller array
+SENTINEL = 1.2345678e77
+
+
+def rehouse(p):
+    """Move every caller array into the middle of a larger buffer whose margins hold a sentinel.  The solver receives
+    ordinary C-contiguous arrays (views); a write one element before the first or after the last entry lands in a margin
+    and is seen after the call instead of silently corrupting somebody else's memory."""
+    p['_buffers'] = {}
+    for name in ARRAYS:
+        a = p[name]
+        buf = np.empty(a.size + 2 * GUARD, dtype=a.dtype)
+        buf[:] = SENTINEL
+        buf[GUARD:GUARD + a.size] = a
+        p[name] = buf[GUARD:GUARD + a.size]
+        p['_buffers'][name] = buf
+
+
+def guards_overwritten(p):
+    out = []
+    for name in ARRAYS:
+        buf = p.get('_buffers', {}).get(name)
+        if buf is None:
+            continue
+        n = p[name].size
+        for side, zone in (('before', buf[:GUARD]), ('after', buf[GUARD + n:])):
+            bad = np.nonzero(~(zone == SENTINEL))[0]
+            if bad.size:
+                out.append([name, side, int(bad[0]), repr(zone[int(bad[0])])])
+                zone[:] = SENTINEL
+    return out
 
 
 def deviation_where(now, snap, fin=None):
@@ -190,6 +221,9 @@ def do_solve(st, op, radial_solver):
         # harness repair: give the caller its arrays back so that later operations of the run stay meaningful
         for name in ARRAYS:
             p[name][...] = before[name]
+    g = guards_overwritten(p)
+    if g:
+        reply['guard_overwritten'] = g
     reply['drift_from_pristine_ulp'] = max(deviation(p[name], snap[name]) for name in ARRAYS)
     if sol is not None:
         reply['type'] = type(sol).__name__
@@ -260,6 +294,7 @@ def main():
                 reply = {'ok': True}
             elif kind == 'planet':
                 st.planets[op['id']] = build_planet(op['spec'])
+                rehouse(st.planets[op['id']])
                 for poison in op.get('poison', []):
                     arr = st.planets[op['id']][poison['array']]
                     val = {'nan': float('nan'), 'inf': float('inf'), 'zero': 0.0, 'neg': -1.0, 'tiny': 1e-300, 'huge': 1e300}[poison['value']]
